@@ -145,6 +145,24 @@ class Builtins:
             raise Unsupported(f'call of opaque {f.tag} at {ex.where(node)}')
         return h(ex, p, node, f, *args, **kwargs)
 
+    def construct_namedtuple(self, ex, q, args, kwargs, p, node):
+        """collections.namedtuple classes (Keyring, ChildSa, *Configuration): fields by position / keyword.
+        ikesa.ChildSa holds either one negotiated selector (record ChildSa) or the list of proposed ones
+        while the CHILD_SA is being requested (record ChildSaReq); the shape of `tsi` decides"""
+        recname = REC_OF_CLASS[q][0]
+        r = RECS[recname]
+        fields = dict(zip(r.fields, args))
+        fields.update(kwargs)
+        if recname == 'ChildSa' and isinstance(fields.get('tsi'), (VTuple, VList)):
+            recname = 'ChildSaReq'
+            r = RECS[recname]
+            for k_ in ('tsi', 'tsr'):
+                if isinstance(fields[k_], VTuple):
+                    fields[k_] = ex.mk_list(fields[k_].items)
+        if set(fields) != set(r.fields):
+            return [Res(p, exc=VExc('TypeError'))]
+        return [Res(p, mk_rec(recname, fields))]
+
     def construct_other(self, ex, cls, args, kwargs, p, node):
         raise Unsupported(f'construction of {cls.qual} at {ex.where(node)}')
 
@@ -553,7 +571,15 @@ class Builtins:
         if q.assume(bad, ('unpack', node.lineno, False)):
             out.append(Res(q, exc=VExc('struct.error')))
         if p.assume(z3.Not(bad), ('unpack', node.lineno, True)):
-            out.extend(r for r in self.b_struct_unpack_from(ex, p, node, fmt, data) if r.exc is None)
+            for r in self.b_struct_unpack_from(ex, p, node, fmt, data):
+                if r.exc is not None:
+                    continue
+                if f.items and all(code == 's' for _, code in f.items) and len(f.items) > 1:
+                    # consecutive byte-string fields that cover the whole buffer concatenate back to it
+                    cnts = [c if not isinstance(c, int) else I(c) for c, _ in f.items]
+                    r.p.add(z3.Implies(z3.And(*[c >= 0 for c in cnts]),
+                                       z3.Concat(*[v.z for v in r.v.items]) == data.z))
+                out.append(r)
         return out
 
     def pack_items(self, ex, p, node, f, vals):
